@@ -64,7 +64,8 @@ pub fn summarise(evs: &[J]) -> (Vec<J>, u64) {
             "set_position" => {
                 calls.push(json!({"e": "setpos", "res": ev["res"], "faults": cur_faults}));
                 cur_faults = vec![];
-                in_setpos = false;
+                // a failed initialisation is retried on the same chain: the next evaluations are initialisation again
+                in_setpos = ev["res"] != "ok";
             }
             "draw_out" => {
                 let ok = ev["res"] == "ok";
@@ -106,6 +107,7 @@ pub fn main(args: &[String]) -> i32 {
         let mut base = sc.clone();
         base["log_evals"] = json!(true);
         base["faults"] = json!([]);
+        base["retry_init"] = json!(true);
         let (_, nevals) = summarise(&run_scenario(&base));
         let stride = sc["sweep"]["stride"].as_u64().unwrap_or(1).max(1);
         let offset = sc["sweep"]["offset"].as_u64().unwrap_or(0);
